@@ -42,6 +42,7 @@ def k_half(ops):
 
 def f_add(tier, rng):
     yield from gens.add_cases(rng, S(tier, 5, 7))
+    yield from gens.avg_mul_cases(rng, 6, S(tier, 150, 2000))
 
 
 def f_func(tier, rng):
